@@ -54,6 +54,12 @@ def validateLoaded (g : SidecarV.Guards) (O : SidecarV.Oracle) (li : List Sideca
 inductive DIssue where
   | sidecar (file : Path) (i : SidecarV.Issue)
   | table (file : Path) (i : Tabular.Issue)
+deriving DecidableEq
+
+/-- the file an issue is labelled with (`ErrorContext.FILE_NAME` = its base name) -/
+def DIssue.file : DIssue → Path
+  | .sidecar f _ => f
+  | .table f _ => f
 
 def DIssue.isError : DIssue → Bool
   | .sidecar _ i => i.isError
